@@ -252,6 +252,7 @@ def unbuilt_schema(xmlschema, version):
     cls = xmlschema.XMLSchema11 if version == '1.1' else xmlschema.XMLSchema10
     s = cls(c10.schema_text(version), build=False)
     s.add_schema(c10.OTHER, namespace=c10.ONS)
+    s.add_schema(c10.OTHER2, namespace=c10.ONS2)
     return s
 
 
